@@ -99,11 +99,13 @@ def run(ctx):
                  nontrivial=lambda t: any(e["b"]["state"] == "drift" for e in t["ev"]))
     tw = []
     for fam, (par, vals) in WARN.items():
-        for i in range(per + 1):
+        for i in range(per + 7):
             p = P.default_params(fam, rng)
             i1, i2 = sorted(rng.sample(range(len(vals)), 2))
-            if i % 2 == 0:
+            if i % 3 == 0:
                 i1 = 0
+            elif i % 3 == 1:
+                i2 = len(vals) - 1          # the loosest warning threshold: long warning stretches that must leave the drift decisions alone
             strict, loose = dict(p), dict(p)
             strict[par], loose[par] = vals[i1], vals[i2]
             if fam == "DDM":
